@@ -485,6 +485,11 @@ class StorageRunner:
             elif o == 'hist':
                 h = st.history(p64(int(tk[1])), 1000)
                 r = '[' + ','.join(str(u64(d['tid'])) for d in h) + ']'
+            elif o == 'reopen':
+                self.reopen()
+                r = 'ok'
+            elif o == 'undotxn' and self.undo_not_single(int(tk[3]), int(tk[2])):
+                r = 'skipped'
             elif o in ('undo', 'undotxn', 'undomulti'):
                 # undo <tid> <oid> <ctid> <undone> <pre> <cur> | undotxn <tid> <oid> <undone>:
                 # a whole undo transaction of the transaction with tid `undone`
@@ -523,6 +528,31 @@ class StorageRunner:
         if o in ('store', 'check'):
             extra = self._poll_pending()
         return ' '.join([r] + extra)
+
+    def undo_not_single(self, tid, oid):
+        """the transaction `tid` exists and did not write exactly the object `oid`"""
+        try:
+            it = self.storage.iterator(p64(tid), p64(tid))
+            txns = [[u64(r.oid) for r in t] for t in it if u64(t.tid) == tid]
+            if hasattr(it, 'close'):
+                it.close()
+        except Exception:
+            return False
+        return any(set(oids) != {oid} for oids in txns)
+
+    def reopen(self):
+        """clean close of the FileStorage (which saves its index) and reopen from the saved index"""
+        from ZODB.FileStorage import FileStorage
+        from ZODB.DemoStorage import DemoStorage
+        st = self.storage
+        if isinstance(st, FileStorage):
+            path = st._file_name
+            st.close()
+            self.storage = FileStorage(path)
+        elif isinstance(st, DemoStorage) and isinstance(st.changes, FileStorage):
+            path = st.changes._file_name
+            st.changes.close()
+            self.storage = DemoStorage(base=st.base, changes=FileStorage(path))
 
     def close(self):
         # release whatever is still held so that pending threads end
